@@ -483,6 +483,7 @@ pub fn finish(orig: Unimock, via: &str) -> FinishObs {
             orig.verify();
             None
         })),
+        #[cfg(feature = "std")]
         "report" => catch_unwind(AssertUnwindSafe(move || {
             use std::process::Termination;
             Some(format!("{:?}", orig.report()))
